@@ -52,7 +52,7 @@ def REQUIRED(tier):
 
 
 def _required(tier):
-    return ["regime:empty_request", "data:zero_packed_bytes", "regime:relative_names_then_chdir",
+    return ["regime:empty_request", "data:zero_packed_bytes", "regime:relative_names_then_chdir", "lockstep_plan_pairs", "deferred_plan_iterations",
         "plans_accepted", "plans_rejected_before_yield", "blocks_yielded", "regime:lastread<skipback", "regime:gulp>nsamps",
         "regime:block_crosses_file_boundary", "regime:partial_last_block_before_eof", "regime:gulp_not_dividing",
         "regime:start>0", "regime:skipback>gulp/2", "regime:skipback>=gulp", "overlap_audits", "spy:creadinto", "spy:seek",
@@ -119,6 +119,8 @@ def cases(tier, seed):
         cfg_r = {"N": N, "nbits": nbits, "nchans": nch, "split": split}
         if nbits < 8 and k % 2:
             cfg_r["sparse"] = True     # blanked stretches: whole packed bytes equal to zero between non-zero ones
+        if k % 6 == 1:
+            yield {"cfg": {"N": N, "nbits": nbits, "nchans": nch, "split": split}, "dseed": int(seed) + 1000 + k, "plans": [], "two_readers": True}
         yield {"cfg": cfg_r, "dseed": int(seed) + 1000 + k, "relchdir": k % 5 == 3,
                "plans": plans, "alloc": ["default", "numpy", "bytearray", "mmap"][k % 4]}
 
@@ -225,7 +227,59 @@ def run_case(case, ctx):
         os.chdir(cwd0)
 
 
+def _two_readers(case, ctx, cfg, fil, Xf):
+    """Two plans alive at the same time on two reader objects (blocks compared only after the other reader has advanced), and a plan that is
+    created first and iterated after the reader has been used for something else."""
+    from sigpyproc.readers import FilReader
+
+    X2, paths2 = _files(ctx, cfg, case["dseed"] + 7919)
+    X2f = X2.astype(np.float64)
+    fil2 = FilReader(paths2 if len(paths2) > 1 else paths2[0])
+    N, nch = cfg["N"], cfg["nchans"]
+    one = {"cfg": cfg, "dseed": case["dseed"], "plans": [], "two_readers": True}
+    for gulp in (3, max(1, N // 4), N):
+        ctx.evaluated(); ctx.count("lockstep_plan_pairs")
+        a_blocks, b_blocks = [], []
+        try:
+            for (na, ia, da), (nb, ib, db) in zip(fil.read_plan(gulp=gulp, quiet=True, description="verif"), fil2.read_plan(gulp=gulp, quiet=True, description="verif")):
+                if a_blocks:   # the block reader A delivered in the previous round, looked at after reader B has moved on
+                    pass
+                a_blocks.append(np.array(da, dtype=np.float64, copy=True))
+                b_blocks.append(np.array(db, dtype=np.float64, copy=True))
+                if not np.array_equal(np.asarray(da, dtype=np.float64), a_blocks[-1]):
+                    ctx.violation("lockstep:block-changed-while-other-reader-advanced", f"gulp={gulp}: reader A's block changed when reader B delivered its block", one)
+                    return
+        except Exception as exc:  # noqa: BLE001
+            ctx.violation(f"lockstep-raised:{type(exc).__name__}@{exc_site(exc)}", fmt_exc(exc), one)
+            return
+        ga = np.concatenate(a_blocks).reshape(-1, nch) if a_blocks else np.zeros((0, nch))
+        gb = np.concatenate(b_blocks).reshape(-1, nch) if b_blocks else np.zeros((0, nch))
+        if not np.array_equal(ga, Xf) or not np.array_equal(gb, X2f):
+            ctx.violation("lockstep:stream-mismatch", f"gulp={gulp}: two readers iterated in lock-step do not each deliver their own file ({'A' if not np.array_equal(ga, Xf) else 'B'} wrong)", one)
+            return
+    # a plan created now, iterated after the reader has been positioned elsewhere
+    for (st, ns, gulp) in ((N // 3, N - N // 3, max(1, N // 5)), (0, N, 4)):
+        if ns < 1:
+            continue
+        ctx.evaluated(); ctx.count("deferred_plan_iterations")
+        try:
+            plan = fil.read_plan(gulp=gulp, start=st, nsamps=ns, quiet=True, description="verif")
+            other = fil.read_plan(gulp=gulp, start=0, nsamps=max(1, N // 2), quiet=True, description="verif")
+            fil.read_block(N - 1, 1)
+            got = np.concatenate([np.array(d_, dtype=np.float64) for _, _, d_ in plan]).reshape(-1, nch)
+            got2 = np.concatenate([np.array(d_, dtype=np.float64) for _, _, d_ in other]).reshape(-1, nch)
+        except Exception as exc:  # noqa: BLE001
+            ctx.violation(f"deferred-plan-raised:{type(exc).__name__}@{exc_site(exc)}", f"plan(start={st}, nsamps={ns}, gulp={gulp}) created before a read_block, iterated after it: {fmt_exc(exc)}", one)
+            return
+        if not np.array_equal(got, Xf[st : st + ns]) or not np.array_equal(got2, Xf[: max(1, N // 2)]):
+            ctx.violation("deferred-plan:stream-mismatch", f"a plan for [{st},{st + ns}) created before other reads on the same reader and iterated afterwards delivers other samples", one)
+            return
+    ctx.nontrivial_case({"two_readers": True, "cfg": cfg, "dseed": case["dseed"]})
+
+
 def _run_plans(case, ctx, cfg, fil, Xf):
+    if case.get("two_readers"):
+        return _two_readers(case, ctx, cfg, fil, Xf)
     if fil.header.nsamples != cfg["N"]:
         ctx.violation("reader-nsamples", f"reader infers {fil.header.nsamples} samples, file set holds {cfg['N']}", case)
         return
